@@ -73,6 +73,20 @@ def refactors_table():
     return "\n".join(rows)
 
 
+def kinds_table():
+    rows = ["| property | structural (obligations / rules) | finite-exhaustive | bounded | unclassified | technique named in MANIFEST |", "|---|---|---|---|---|---|"]
+    man = {c["property_id"]: c for c in json.load(open(os.path.join(VERIF, "MANIFEST.json")))["checks"]}
+    for p in sorted(glob.glob(os.path.join(VERIF, "evidence", "C*.json"))):
+        ev = json.load(open(p))
+        bk = ev["coverage"].get("obligations_by_kind") or {}
+        def cell(k):
+            v = bk.get(k)
+            return f"{v['obligations']} / {v['rules']}" if v else "-"
+        rows.append(f"| {ev['property_id']} | {cell('structural')} | {cell('finite-exhaustive')} | {cell('bounded')} | {cell('unclassified')} | "
+                    f"{esc(man.get(ev['property_id'], {}).get('technique', ''))[:160]} |")
+    return "\n".join(rows)
+
+
 def checks_table():
     rows = ["| property | rules | obligations | functions | mutants (detected/registered) | silent variants | known findings printed |", "|---|---|---|---|---|---|---|"]
     for p in sorted(glob.glob(os.path.join(VERIF, "evidence", "C*.json"))):
@@ -97,7 +111,7 @@ def importlib_mutants(pid):
 def main():
     path = os.path.join(VERIF, "DESIGN.md")
     s = open(path).read()
-    for name, fn in (("FINDINGS", findings_table), ("SEEDS", seeds_table), ("CHECKS", checks_table), ("REFACTORS", refactors_table)):
+    for name, fn in (("FINDINGS", findings_table), ("SEEDS", seeds_table), ("CHECKS", checks_table), ("REFACTORS", refactors_table), ("KINDS", kinds_table)):
         b, e = f"<!-- BEGIN:{name} -->", f"<!-- END:{name} -->"
         if b in s and e in s:
             s = s[: s.index(b) + len(b)] + "\n" + fn() + "\n" + s[s.index(e):]
